@@ -27,7 +27,7 @@ pub fn c02() -> Check {
     Check {
         property: "C02",
         level: "exploration",
-        scenarios: vec![Box::new(SqlScenario { name: "c02-sql", family: Family::Any, mode: Mode::Exact, need_reference: false, weight: 1 })],
+        scenarios: vec![Box::new(SqlScenario { name: "c02-sql", family: Family::Any, mode: Mode::Exact, need_reference: false, weight: 1, dynamic_filters: false })],
         cases_quick: 16_000,
         cases_thorough: 400_000,
         rule: "runs: one generated SQL query (joins of every type, semi/anti/NOT IN, nested-loop, cross, GROUP BY, DISTINCT, ORDER BY/LIMIT, UNION [ALL], window functions, IN/scalar subqueries, join+aggregate) over two generated tables split into 1-4 scripted partitions, under a random semantic-neutral configuration (target_partitions 1-8, batch_size 1-8192, join/aggregate/sort/window repartitioning switches, hash-join thresholds, partial-aggregation skipping, dynamic filters, sort pushdown, coalescing, ...), 1-3 copies of the query running concurrently in one session, one scheduler policy per run; result compared with an independent reference evaluator where one exists, otherwise with the baseline configuration (single partition MemTable, defaults). distinct = distinct poll traces; non-trivial = a scheduling decision had >= 2 runnable tasks or a refusal/fault fired",
@@ -40,7 +40,7 @@ fn exact(property: &'static str, name: &'static str, family: Family, rule: &'sta
     Check {
         property,
         level: "exploration",
-        scenarios: vec![Box::new(SqlScenario { name, family, mode: Mode::Exact, need_reference: true, weight: 1 })],
+        scenarios: vec![Box::new(SqlScenario { name, family, mode: Mode::Exact, need_reference: true, weight: 1, dynamic_filters: false })],
         cases_quick: 16_000,
         cases_thorough: 400_000,
         rule,
@@ -64,10 +64,10 @@ pub fn c18() -> Check {
         property: "C18",
         level: "exploration",
         scenarios: vec![
-            Box::new(SqlScenario { name: "c18-sorts", family: Family::Sort, mode: Mode::Pressure, need_reference: true, weight: 2 }),
-            Box::new(SqlScenario { name: "c18-aggregates", family: Family::Agg, mode: Mode::Pressure, need_reference: true, weight: 2 }),
-            Box::new(SqlScenario { name: "c18-joins", family: Family::Join, mode: Mode::Pressure, need_reference: true, weight: 2 }),
-            Box::new(SqlScenario { name: "c18-any", family: Family::Any, mode: Mode::Pressure, need_reference: false, weight: 1 }),
+            Box::new(SqlScenario { name: "c18-sorts", family: Family::Sort, mode: Mode::Pressure, need_reference: true, weight: 2, dynamic_filters: false }),
+            Box::new(SqlScenario { name: "c18-aggregates", family: Family::Agg, mode: Mode::Pressure, need_reference: true, weight: 2, dynamic_filters: false }),
+            Box::new(SqlScenario { name: "c18-joins", family: Family::Join, mode: Mode::Pressure, need_reference: true, weight: 2, dynamic_filters: false }),
+            Box::new(SqlScenario { name: "c18-any", family: Family::Any, mode: Mode::Pressure, need_reference: false, weight: 1, dynamic_filters: false }),
         ],
         cases_quick: 16_000,
         cases_thorough: 400_000,
@@ -81,7 +81,7 @@ pub fn c19() -> Check {
     Check {
         property: "C19",
         level: "fault_enumeration",
-        scenarios: vec![Box::new(SqlScenario { name: "c19-drop", family: Family::Any, mode: Mode::Drop, need_reference: false, weight: 1 })],
+        scenarios: vec![Box::new(SqlScenario { name: "c19-drop", family: Family::Any, mode: Mode::Drop, need_reference: false, weight: 1, dynamic_filters: false })],
         cases_quick: 16_000,
         cases_thorough: 400_000,
         rule: "runs: generated queries executed through the real planner, whose output stream is dropped before the first poll or after 1..3 batches (drop point swept by the generator), merged stream or per-partition consumption; afterwards the simulator runs the system to quiescence and checks: no live background task, every input stream released, pool 0 bytes, no spill file. distinct/non-trivial as for C02",
@@ -95,12 +95,29 @@ pub fn c20() -> Check {
         property: "C20",
         level: "fault_enumeration",
         scenarios: vec![
-            Box::new(SqlScenario { name: "c20-faults", family: Family::Any, mode: Mode::Fault, need_reference: false, weight: 2 }),
+            Box::new(SqlScenario { name: "c20-faults", family: Family::Any, mode: Mode::Fault, need_reference: false, weight: 2, dynamic_filters: false }),
             Box::new(crate::c10::RepartitionFaults),
         ],
         cases_quick: 16_000,
         cases_thorough: 400_000,
         rule: "runs: generated queries with exactly one scripted fault whose position is swept by the generator: an input partition returns an error or panics at a random step, or (under a bounded pool that forces spilling) the k-th spill create/write/flush/finish/read fails (torn/sticky variants). Once the fault has fired the result must be an error (or the injected panic re-raised) or the complete expected result; never a truncated success, hang or foreign panic; afterwards the release invariants of C19. c20-repartition (one third of the runs): RepartitionExec (round-robin/hash/preserve_order, 1-8 outputs) over scripted inputs with one injected input error while a third of the outputs are dropped after 0-2 batches: every output read to its end must report the error. distinct/non-trivial as for C02",
+        assumptions: L1_ASSUME.to_vec(),
+        components: components(),
+    }
+}
+
+pub fn c31() -> Check {
+    Check {
+        property: "C31",
+        level: "exploration",
+        scenarios: vec![
+            Box::new(SqlScenario { name: "c31-joins", family: Family::Join, mode: Mode::Exact, need_reference: true, weight: 3, dynamic_filters: true }),
+            Box::new(SqlScenario { name: "c31-topk", family: Family::Sort, mode: Mode::Exact, need_reference: true, weight: 2, dynamic_filters: true }),
+            Box::new(SqlScenario { name: "c31-aggregates", family: Family::Agg, mode: Mode::Exact, need_reference: true, weight: 1, dynamic_filters: true }),
+        ],
+        cases_quick: 16_000,
+        cases_thorough: 400_000,
+        rule: "L1 part: generated join queries (all join types, NULL-equality modes, residual filters), ORDER BY ... LIMIT (TopK) and grouped aggregates over tables whose scans ACCEPT pushed-down filters and evaluate the current dynamic filter afresh on every batch; dynamic filter pushdown forced on, join filter strategy (bounds / IN-list / hash lookup) varied through the IN-list thresholds; build-side completion, probe scanning and sibling partitions interleaved by the seeded scheduler with Pending/virtual delays in the inputs; result compared with the independent reference (a row wrongly pruned shows as a missing row). L2 part (c31-filter, merged below): the filter object under shuttle schedules. distinct/non-trivial as for C02",
         assumptions: L1_ASSUME.to_vec(),
         components: components(),
     }
